@@ -42,8 +42,14 @@ def r_chain(E):
                                 "CANONICAL_COMPUTATION_ORDER")
     # 1. attr_updates_chain
     rel, fn = pm.find_function(EB, "ExplainableObject.attr_updates_chain")
+    # the chain is the local that the function hands back (directly or through optimize_attr_updates_chain(...))
+    from ..astutil import names_behind
+    returned = set()
+    for r in ast.walk(fn):
+        if isinstance(r, ast.Return) and r.value is not None:
+            returned |= names_behind(r.value, fn)
     apps = [c for c in _calls(fn) if isinstance(c.func, ast.Attribute) and c.func.attr == "append"
-            and norm(c.func.value) == "attr_updates_chain"]
+            and norm(c.func.value) in returned]
     if not apps:
         res.undecided.append("attr_updates_chain: no append to the chain found")
     from ..astutil import path_conditions, positive_atoms
@@ -138,8 +144,9 @@ def r_chain(E):
         res.undecided.append("mod_objs_computation_chain: no work-list loop")
     else:
         t = norm(w)
+        returned = {norm(r.value) for r in ast.walk(fn) if isinstance(r, ast.Return) and r.value is not None}
         appended = any(isinstance(c.func, ast.Attribute) and c.func.attr == "append" and
-                       norm(c.func.value) == "mod_objs_computation_chain" for c in _calls(w))
+                       norm(c.func.value) in returned for c in _calls(w))
         expands = any(isinstance(n, ast.For) and "modeling_objects_whose_attributes_depend_directly_on_me" in norm(n.iter)
                       for n in ast.walk(w))
         if not appended or not expands:
@@ -149,6 +156,8 @@ def r_chain(E):
                 "further down the dependency graph are not recomputed", rel, w.lineno, "ModelingObject.mod_objs_computation_chain"))
     # 4. reordering follows the canonical order
     rel, fn = pm.find_function(MO, "optimize_mod_objs_computation_chain")
+    from ..astutil import desugar_comprehensions
+    fn = desugar_comprehensions(fn)
     res.instances += 1
     outer = next((n for n in ast.walk(fn) if isinstance(n, ast.For) and norm(n.iter) == "CANONICAL_COMPUTATION_ORDER"), None)
     if outer is None:
